@@ -41,6 +41,7 @@ func Execute(r *Rule, ctx *an.Ctx) {
 	runProvTable(r.ID, ctx)
 	runConvSweep(r.ID, ctx)
 	runCtxSweep(r.ID, ctx)
+	runNilLoadSweep(r.ID, ctx)
 	done := map[string]*an.Ctx{}
 	for _, im := range r.Imports {
 		prop := im.From
